@@ -54,6 +54,13 @@ static void work(void *c){ it2 *it = c;
   atomic_fetch_sub(&in_flight,1); atomic_fetch_add(&done_items,1); free(it); }
 static int nops;
 extern dispatch_queue_t dispatch_workloop_create(const char *label);
+// a thread that hands a parked synchronous caller down to the workloop at the bottom is delayed for a moment after it has linked the
+// caller's (stack-allocated) context into the workloop: by then the workloop's drainer may have woken the caller and the caller
+// may have returned - the pushing thread must not touch the context any more
+extern void (*_dispatch_verif_yield_cb)(const volatile void *addr, const char *func, int line);
+static atomic_long push_holds;
+static void ycb(const volatile void *addr, const char *func, int line){ (void)addr;(void)line; if(strcmp(func,"_dispatch_workloop_push_waiter")) return;
+  if(rnd()%2){ atomic_fetch_add(&push_holds,1); usleep((useconds_t)(50+rnd()%300)); } }
 void dispatch_async_and_wait_f(dispatch_queue_t, void*, dispatch_function_t);
 void dispatch_barrier_async_and_wait_f(dispatch_queue_t, void*, dispatch_function_t);
 static void *client(void *a){ tix = (int)(intptr_t)a; long seq[MAXQ] = {0};
@@ -81,12 +88,12 @@ int main(int argc, char **argv){
     else Q[i] = dispatch_queue_create_with_target("q", attr, Q[parent]); }
   evs = calloc(MAXEV, sizeof(ev_t));
   for (int i=wl_bottom;i<nq;i++) printf("Q %d width %d stateoff %ld\n", i, serial[i]?1:4094, (long)((char*)_dispatch_verif_queue_state_addr(Q[i])-(char*)Q[i]));
-  _dispatch_verif_atomic_cb = cb; inject = 1;
+  _dispatch_verif_atomic_cb = cb; inject = 1; if(wl_bottom) _dispatch_verif_yield_cb = ycb;
   pthread_t wd; pthread_create(&wd,0,watchdog,(void*)(intptr_t)(nthr*nops));
   pthread_t th[64]; for (int i=0;i<nthr;i++) pthread_create(&th[i],0,client,(void*)(intptr_t)i);
   for (int i=0;i<nthr;i++) pthread_join(th[i],0);
   for (int w=0; w<30000 && atomic_load(&done_items) < nthr*nops; w++) usleep(1000);
-  _dispatch_verif_atomic_cb = 0;
+  _dispatch_verif_atomic_cb = 0; _dispatch_verif_yield_cb = 0;
   if (atomic_load(&done_items) < nthr*nops) { printf("STUCK %d of %d items done\n", atomic_load(&done_items), nthr*nops); dump(); return 3; }
   if (viol) printf("ORACLE VIOL seed=%lu %s\n", (unsigned long)seed, vmsg); else printf("ORACLE ok items=%d events=%lu queues=%d spurious_futex_returns=%ld\n", nthr*nops, atomic_load(&nev), nq, atomic_load(&spurious));
   dump(); return viol?1:0; }
